@@ -6,6 +6,7 @@ import os
 from harness.common import facts as F
 from harness.common import build
 from . import facts18
+from . import translate
 
 ID = 'C18'
 HERE = os.path.dirname(os.path.abspath(__file__))
@@ -26,26 +27,34 @@ ASSUMPTIONS = [
     'configurator scenarios run with autocommit=True (re-adding a name replaces it instead of conflicting)',
 ]
 TRUSTED = [
-    'hand-written model coq/Model/C18.v of TopologicalSorter.add/remove/sorted, Tweens.add_implicit/add_explicit/'
-    '__call__, add_view_deriver argument processing, _apply_view_derivers, PredicateList.add (all shape-pinned)',
+    'translator harness/c18/translate.py: its PRIMITIVE TABLE (which Python leaf expression / method / idiom / exception '
+    'constructor becomes which primitive of coq/Model/C18_base.v -- see the docstring); control flow is translated '
+    'mechanically, anything outside subset/table is a broken tie, never a guess',
+    'hand-written REFERENCE model coq/Model/C18_base.v + C18.v: for remove/add/sorted, Tweens.add_explicit/add_implicit/'
+    'implicit/__call__ and _apply_view_derivers it is no longer trusted (proved equal to the regenerated program); still '
+    'trusted and shape-pinned: add_view_deriver argument processing, _add_tween checks, the predicate directives, '
+    'add_default_* lists, PredicateList.add/make, Router.__init__, is_nonstr_iter, as_sorted_tuple',
     'Python str ordering (as_sorted_tuple) modelled as code-point lexicographic order',
     'Router.__init__ / make_wsgi_app / view lookup are exercised, not modelled (only the enter/exit log is compared)',
 ]
-TECHNIQUE = ('Coq proof (loop invariant of the Kahn-style emission loop over an insertion-ordered dictionary graph; '
-             'representation invariant of add/remove) on a hand-written Gallina model + extracted-model differential '
-             'correspondence; the declarative judge defined in Coq is run on the implementation\'s answers')
-LEVEL_TEXT = ('Machine-checked theorems, for every state of a TopologicalSorter (any add/remove sequence, any size): sorted() '
-              'never fails internally; a Sorted answer is a permutation of the currently declared names with their latest values '
-              'and respects every constraint arc whose ends are present (sentinels included); a cycle among present arcs is never '
-              'ordered and is reported; Unsatisfied errors are raised exactly for names none of whose own alternatives is present; '
-              'tweens and view derivers nest in list order (first outermost), an explicit tween list wins; the regenerated default '
-              'deriver declarations sort with secured_view first and rendered_view/mapped_view innermost. Model tied to the code by '
-              '21 shape pins, regenerated constants and a differential run; the Coq judge is run on the implementation\'s answers.')
-LEVEL_NOTE = ('Trusted: Coq kernel; hand-written model (validated by correspondence, shape-pinned); Python harness. Proved for every '
-              'constructor flavour and every add/remove sequence: the state is determined by the current declarations and every '
-              'answer of sorted() is accepted by the declarative judge (C18_model_judged); cycle_iff_error in both directions. '
-              'The tween/deriver scenario judges and the sentinel-only constraints of a Sorted answer are validated by the run, '
-              'not proved at judge level.')
+TECHNIQUE = ('Coq proof about a Gallina program whose control flow is TRANSLATED from the Python source on every run '
+             '(harness/c18/translate.py -> Gen/Facts_C18.v: gen_remove, gen_add, gen_sorted with its closures and its fuelled '
+             'while loop, gen_tw_*, gen_apply_view_derivers), proved equal to the hand-written reference model (Proofs/C18_gen.v); '
+             'loop invariant of the Kahn-style emission loop, representation invariant of add/remove, pigeonhole for cycles; '
+             'extracted-model differential correspondence; the declarative judge defined in Coq is run on the '
+             'implementation\'s answers')
+LEVEL_TEXT = ('Machine-checked theorems about the program regenerated from src/pyramid/util.py, config/tweens.py and '
+              'config/views.py on this run: for every constructor flavour and every add/remove sequence each answer of sorted() is '
+              'accepted by the declarative judge (every declared name once with its latest value, every constraint between present '
+              'names respected, Unsatisfied/Cyclic errors exactly when justified; C18_gen_model_judged), sorted() never fails '
+              'internally, tweens and view derivers nest in list order with an explicit tween list winning; plus, on the reference '
+              'model, cycle_iff_error in both directions, tween histories, predicate directives, and the default deriver order '
+              '(secured_view first). Ties: generated = model theorems (no shape pins on the translated functions), regenerated '
+              'constants, 22 shape pins on the untranslated functions, differential run with the Coq judge on the implementation.')
+LEVEL_NOTE = ('Trusted: Coq kernel; the translator\'s primitive table (leaf claims about dict/list/set methods, the graph entry '
+              'representation, the unchecked list.remove on order/req_* which is unreachable by C18_rep_reachable, the fuel = '
+              'len(graph) of the while loop whose exhaustion is proved impossible); the hand-written model of the untranslated '
+              'functions (pinned); Python harness. The wire-level scenario judges are proved at Prop level only.')
 ALLOWED_AXIOMS = ()
 PROOF_TIMEOUT = 1500
 
@@ -65,7 +74,10 @@ def facts(src):
     problems += pr
     _facts_cache['vals'] = vals
     summary.update({k: (list(v) if isinstance(v, tuple) else v) for k, v in vals.items()})
-    return {'coq': facts18.emit(vals), 'summary': summary, 'problems': problems}
+    gen, tproblems, tsummary = translate.translate_tree(src)
+    problems += tproblems
+    summary.update(tsummary)
+    return {'coq': facts18.emit(vals, gen), 'summary': summary, 'problems': problems}
 
 
 def _vals():
